@@ -64,7 +64,8 @@ def continuum_cases(draw):
     rho = draw(st.integers(1, 12)) / 4.0
     rho_field = draw(st.one_of(st.none(), st.integers(0, 99)))
     load_seed = draw(st.integers(0, 999))
-    return dict(recipe=r, law=law, rho=rho, rho_field=rho_field, load_seed=load_seed)
+    # read-only queries made on the mesh before the simulation is built (0 = none): point evaluation, measures, normals
+    return dict(recipe=r, law=law, rho=rho, rho_field=rho_field, load_seed=load_seed, warm=draw(st.sampled_from([0, 0, 1, 3, 5, 7])))
 
 
 def _measures_e(mesh, g):
@@ -93,6 +94,8 @@ def check_elastic(case, rec):
     sig = dict(elemType=r["elemType"], types=types, dim=dim, law=case["law"]["cls"])
     rec.label("types:" + types, "law:" + case["law"]["cls"])
     mat = gmod.make_elastic(case["law"])
+    gm.warm_queries(mesh, case.get("warm", 0))
+    rec.label("warm" if case.get("warm") else "cold")
     simu = Simulations.Elastic(mesh, mat)
     groups = gm.main_groups(mesh)
     rho = case["rho"]
@@ -174,7 +177,7 @@ def thermal_cases(draw):
     kind = draw(st.sampled_from(["1d", "2d", "2d", "3d"]))
     r = draw(gm.recipes1d() if kind == "1d" else gm.recipes2d(bend_ok=True) if kind == "2d" else gm.recipes3d(taper_ok=True, bend_ok=True))
     return dict(recipe=r, k=draw(st.integers(1, 20)) / 4.0, c=draw(st.integers(1, 12)) / 4.0,
-                rho=draw(st.integers(1, 12)) / 4.0, thickness=draw(st.sampled_from([1.0, 0.5, 2.0])))
+                rho=draw(st.integers(1, 12)) / 4.0, thickness=draw(st.sampled_from([1.0, 0.5, 2.0])), warm=draw(st.sampled_from([0, 0, 1, 3, 5, 7])))
 
 
 def check_thermal(case, rec):
@@ -188,6 +191,8 @@ def check_thermal(case, rec):
     types = gm.mesh_types(mesh)
     sig = dict(elemType=r["elemType"], types=types, dim=dim)
     rec.label("types:" + types)
+    gm.warm_queries(mesh, case.get("warm", 0))
+    rec.label("warm" if case.get("warm") else "cold")
     simu = Simulations.Thermal(mesh, Models.Thermal(k=case["k"], c=case["c"], thickness=case["thickness"]))
     simu.rho = case["rho"]
     K, C, M, F = simu.Get_K_C_M_F()
